@@ -114,7 +114,8 @@ func (d *AV1Depacketizer) Unmarshal(payload []byte) (buff []byte, err error) {
 		offset += lengthField
 
 		if isLast && obuY {
-			d.buffer = obuBuffer
+			// keep an owned copy, the payload belongs to the caller
+			d.buffer = append([]byte{}, obuBuffer...)
 
 			break
 		}
